@@ -142,6 +142,8 @@ def canon(v):
         return NONE
     if isinstance(v, Arr):
         return "~arr"
+    if isinstance(v, Opaque):
+        return "~obj"
     if isinstance(v, dict) and v == {"decision": "x"}:
         return "~dict"
     if isinstance(v, list) and any(x is v for x in v):
@@ -176,9 +178,18 @@ class Arr:
     __hash__ = object.__hash__
 
 
+class Opaque:
+    """A plain object that compares by IDENTITY only (no __eq__), like most user-defined classes."""
+
+
+OBJ = Opaque()      # THE default object several signatures share (`def f(p=OBJ)`, `def g(p=OBJ)`)
+
+
 def pyval(text):
     if text == "~arr":
         return Arr()
+    if text == "~obj":
+        return OBJ
     if text == "~dict":                    # a dict-valued value (an interrupt's answer may well be a dict)
         return {"decision": "x"}
     if text == "~cyc":                     # a value with a reference cycle: a list that contains itself
